@@ -160,8 +160,9 @@ func c11(c *Ctx) {
 		r.Unk("R-C11.4", "aead.Wrapper.Decrypt precondition summary", p.Pos(da.op.Pos()), "no constant-bound slice found in the dependency (summary broken or dependency changed)")
 	}
 	blob := core.Strip(da.op.Call.Args[2])
+	roots := blobRoots(decK, blob)
 	for f, n := range needs {
-		g := core.LenAtLeast("blob."+f, func(pp core.Path) bool { return pp.Root == blob && pp.HasFields(f) }, n)
+		g := core.LenAtLeast("blob."+f, func(pp core.Path) bool { return roots[pp.Root] && pp.HasFields(f) }, n)
 		res := core.CutReach(p, decK, g, da.op.Block())
 		r.CutOb(p, "R-C11.4", fmt.Sprintf("nodeenrollment.decryptWithKey callee-precondition %s len(%s)>=%d", impl, f, n), p.Pos(da.op.Pos()), res, g)
 	}
@@ -565,4 +566,24 @@ func paramNamedOrTyped(fn *ssa.Function, i int) *ssa.Parameter {
 		return fn.Params[i]
 	}
 	return nil
+}
+
+// blobRoots: the values that denote the blob handed to the wrapper - the argument itself and, when it is the
+// result of a package-local helper that builds (and may length-check) it, the values that helper returns.
+func blobRoots(fn *ssa.Function, blob ssa.Value) map[ssa.Value]bool {
+	roots := map[ssa.Value]bool{blob: true}
+	hv, idx := blob, 0
+	if ex, isEx := blob.(*ssa.Extract); isEx {
+		hv, idx = ex.Tuple, ex.Index
+	}
+	if hc, isCall := hv.(*ssa.Call); isCall {
+		if h := hc.Common().StaticCallee(); h != nil && h.Pkg == fn.Pkg && len(h.Blocks) > 0 {
+			for _, hb := range h.Blocks {
+				if ret, isRet := hb.Instrs[len(hb.Instrs)-1].(*ssa.Return); isRet && idx < len(ret.Results) {
+					roots[core.Strip(ret.Results[idx])] = true
+				}
+			}
+		}
+	}
+	return roots
 }
